@@ -7,6 +7,9 @@ import (
 	"io"
 	"regexp"
 	"strings"
+	"sync"
+	"sync/atomic"
+	"time"
 
 	"golang.org/x/crypto/openpgp"
 	"golang.org/x/crypto/openpgp/armor"
@@ -212,9 +215,23 @@ func panicClass(entry string, pv any, stack string) string {
 	return fmt.Sprintf("%s panics: %s [in %s]", entry, msg, frame)
 }
 
+// inflight: calls that have not returned yet (diagnosis of a call that never returns; see watchdog in main.go)
+type flight struct {
+	entry string
+	input []byte
+	what  func() string
+	start time.Time
+}
+
+var inflight sync.Map
+var flightID atomic.Int64
+
 // call runs one entry point on one input and classifies what happened.
 func (e *env) call(entry string, input []byte, what func() string, f func() (accepted bool)) {
 	var acc bool
+	id := flightID.Add(1)
+	inflight.Store(id, &flight{entry, input, what, time.Now()})
+	defer inflight.Delete(id)
 	p, pv, st := vf.Protect(func() { acc = f() })
 	e.c.Eval(1)
 	e.t.add(entry, acc && !p)
